@@ -4,7 +4,14 @@
  * read with its return code.  Used by checks/C04.py (specification-valid files not written
  * by PnetCDF) and checks/C19.py (malformed files, AddressSanitizer/UBSan build).
  *
- *   [mpiexec -n N] c04_open <file> [-h key=value]... [-d maxdata] [-i] [-q]
+ *   [mpiexec -n N] c04_open <file> [-h key=value]... [-d maxdata] [-i] [-q] [-V]
+ *   [mpiexec -n N] c04_open -B <listfile>
+ *        batch mode (one MPI_Init for many files; a sanitizer abort or crash ends the process and
+ *        the caller restarts after the offending case).  listfile lines:
+ *            <tag> <chunk|-> <maxdata> <flags: letters of iqV or -> <hint=val,hint=val|-> <path>
+ *        <chunk> is exported as PNETCDF_VERIF_HDR_CHUNK for that case (`-` = unset).
+ *        Output per case: `case <tag>`, the dump, `ranks..`, `endcase <wall_ms> <maxrss_kb> <cpu_ms>`
+ *        (cpu_ms = user+system time of rank 0 for this case: robust against a loaded machine).
  *
  *   -h k=v     MPI_Info hint passed to ncmpi_open (repeatable)
  *   -d bytes   largest attribute / variable (in external bytes) that is read back (default 1 MiB;
@@ -27,7 +34,7 @@
  *   idata <id> <rc> same|diff|skipped          (with -i)
  *   close <rc>
  *   ranks <n> agree <0|1>                       (all ranks produced the same dump)
- *   rusage maxrss_kb <n> wall_ms <n>
+ *   rusage maxrss_kb <n> wall_ms <n> cpu_ms <n>
  * A data blob longer than 512 bytes is printed as fnv:<64-bit FNV-1a hash hex>:<len>.
  */
 #define _GNU_SOURCE
@@ -161,40 +168,24 @@ static void dump_att(int ncid, int varid, int idx, long long maxdata)
     }
 }
 
-int main(int argc, char **argv)
-{
-    int rank, nprocs, ncid = -1, rc, i, j, nhints = 0, indep = 0, quiet = 0, vard = 0;
-    long long maxdata = 1 << 20;
-    const char *path;
-    MPI_Info info = MPI_INFO_NULL;
-    struct timeval t0, t1;
-    struct rusage ru;
-    int ndims = 0, nvars = 0, ngatts = 0, unlim = -1, fmt = 0;
+static int g_rank, g_nprocs;
 
-    MPI_Init(&argc, &argv);
-    MPI_Comm_rank(MPI_COMM_WORLD, &rank);
-    MPI_Comm_size(MPI_COMM_WORLD, &nprocs);
-    if (argc < 2) { if (rank == 0) fprintf(stderr, "usage: c04_open file [-h k=v] [-d n] [-i] [-q]\n"); MPI_Finalize(); return 2; }
-    path = argv[1];
-    for (i = 2; i < argc; i++) {
-        if (!strcmp(argv[i], "-h") && i + 1 < argc) {
-            char *kv = strdup(argv[++i]);
-            char *eq = strchr(kv, '=');
-            if (eq) {
-                *eq = 0;
-                if (info == MPI_INFO_NULL) MPI_Info_create(&info);
-                MPI_Info_set(info, kv, eq + 1);
-                nhints++;
-            }
-            free(kv);
-        }
-        else if (!strcmp(argv[i], "-d") && i + 1 < argc) maxdata = atoll(argv[++i]);
-        else if (!strcmp(argv[i], "-i")) indep = 1;
-        else if (!strcmp(argv[i], "-q")) quiet = 1;
-        else if (!strcmp(argv[i], "-V")) vard = 1;
-    }
+/* one file: open, dump, close; returns nothing, prints (rank 0) */
+static void run_case(const char *path, MPI_Info info, long long maxdata, int indep, int quiet, int vard,
+                     const char *tag)
+{
+    int ncid = -1, rc, i, j;
+    struct timeval t0, t1;
+    struct rusage ru, ru0;
+    int ndims = 0, nvars = 0, ngatts = 0, unlim = -1, fmt = 0;
+    int rank = g_rank, nprocs = g_nprocs;
+
+    g_len = 0;
+    if (g_buf) g_buf[0] = 0;
+    if (tag && rank == 0) { printf("case %s\n", tag); fflush(stdout); }
 
     gettimeofday(&t0, NULL);
+    getrusage(RUSAGE_SELF, &ru0);
     rc = ncmpi_open(MPI_COMM_WORLD, path, NC_NOWRITE, info, &ncid);
     out("open %d\n", rc);
     if (rc != NC_NOERR) goto done;
@@ -263,7 +254,7 @@ int main(int argc, char **argv)
         for (j = 0; j < nd && !bad; j++) {
             MPI_Offset len = -1;
             if (ncmpi_inq_dimlen(ncid, dimids[j], &len) != NC_NOERR || len < 0) { bad = 1; break; }
-            if (len != 0 && nel > (maxdata + 1) / (len > 0 ? len : 1) + 1) { nel = maxdata + 1; }
+            if (len != 0 && nel > (maxdata + 1) / len + 1) nel = maxdata + 1;
             else nel *= len;
             if (nel > maxdata + 1) nel = maxdata + 1;
         }
@@ -309,20 +300,87 @@ done:
     {
         unsigned long long h = fnv((const unsigned char *)(g_buf ? g_buf : ""), g_len), hmin, hmax;
         long ms = (long)((t1.tv_sec - t0.tv_sec) * 1000 + (t1.tv_usec - t0.tv_usec) / 1000);
-        long rss, rssmax;
+        long rss, rssmax, cpu;
         MPI_Allreduce(&h, &hmin, 1, MPI_UNSIGNED_LONG_LONG, MPI_MIN, MPI_COMM_WORLD);
         MPI_Allreduce(&h, &hmax, 1, MPI_UNSIGNED_LONG_LONG, MPI_MAX, MPI_COMM_WORLD);
         getrusage(RUSAGE_SELF, &ru);
         rss = ru.ru_maxrss;
+        cpu = (long)((ru.ru_utime.tv_sec - ru0.ru_utime.tv_sec) * 1000 + (ru.ru_utime.tv_usec - ru0.ru_utime.tv_usec) / 1000
+                     + (ru.ru_stime.tv_sec - ru0.ru_stime.tv_sec) * 1000 + (ru.ru_stime.tv_usec - ru0.ru_stime.tv_usec) / 1000);
         MPI_Allreduce(&rss, &rssmax, 1, MPI_LONG, MPI_MAX, MPI_COMM_WORLD);
         if (rank == 0) {
             if (!quiet && g_buf) fputs(g_buf, stdout);
             else if (g_buf) { char *nl = strchr(g_buf, '\n'); if (nl) { *nl = 0; } puts(g_buf); }
             printf("ranks %d agree %d\n", nprocs, hmin == hmax);
-            printf("rusage maxrss_kb %ld wall_ms %ld\n", rssmax, ms);
+            if (tag) printf("endcase %ld %ld %ld\n", ms, rssmax, cpu);
+            else printf("rusage maxrss_kb %ld wall_ms %ld cpu_ms %ld\n", rssmax, ms, cpu);
             fflush(stdout);
         }
     }
+}
+
+static MPI_Info info_of(const char *spec)      /* "k=v,k=v" or "-" */
+{
+    MPI_Info info = MPI_INFO_NULL;
+    char *s, *tok, *save = NULL;
+    if (!spec || !strcmp(spec, "-")) return info;
+    s = strdup(spec);
+    for (tok = strtok_r(s, ",", &save); tok; tok = strtok_r(NULL, ",", &save)) {
+        char *eq = strchr(tok, '=');
+        if (!eq) continue;
+        *eq = 0;
+        if (info == MPI_INFO_NULL) MPI_Info_create(&info);
+        MPI_Info_set(info, tok, eq + 1);
+    }
+    free(s);
+    return info;
+}
+
+int main(int argc, char **argv)
+{
+    int i, indep = 0, quiet = 0, vard = 0;
+    long long maxdata = 1 << 20;
+    MPI_Info info = MPI_INFO_NULL;
+
+    MPI_Init(&argc, &argv);
+    MPI_Comm_rank(MPI_COMM_WORLD, &g_rank);
+    MPI_Comm_size(MPI_COMM_WORLD, &g_nprocs);
+    if (argc < 2) { if (g_rank == 0) fprintf(stderr, "usage: c04_open file [-h k=v] [-d n] [-i] [-q] [-V] | -B list\n"); MPI_Finalize(); return 2; }
+    if (!strcmp(argv[1], "-B") && argc >= 3) {
+        FILE *lf = fopen(argv[2], "r");
+        char tag[256], chunk[64], flags[32], hints[1024], path[4096];
+        long long md;
+        if (!lf) { MPI_Finalize(); return 2; }
+        while (fscanf(lf, "%255s %63s %lld %31s %1023s %4095s", tag, chunk, &md, flags, hints, path) == 6) {
+            MPI_Info ci = info_of(hints);
+            if (strcmp(chunk, "-")) setenv("PNETCDF_VERIF_HDR_CHUNK", chunk, 1);
+            else unsetenv("PNETCDF_VERIF_HDR_CHUNK");
+            run_case(path, ci, md, strchr(flags, 'i') != NULL, strchr(flags, 'q') != NULL,
+                     strchr(flags, 'V') != NULL, tag);
+            if (ci != MPI_INFO_NULL) MPI_Info_free(&ci);
+        }
+        fclose(lf);
+        free(g_buf);
+        MPI_Finalize();
+        return 0;
+    }
+    for (i = 2; i < argc; i++) {
+        if (!strcmp(argv[i], "-h") && i + 1 < argc) {
+            char *kv = strdup(argv[++i]);
+            char *eq = strchr(kv, '=');
+            if (eq) {
+                *eq = 0;
+                if (info == MPI_INFO_NULL) MPI_Info_create(&info);
+                MPI_Info_set(info, kv, eq + 1);
+            }
+            free(kv);
+        }
+        else if (!strcmp(argv[i], "-d") && i + 1 < argc) maxdata = atoll(argv[++i]);
+        else if (!strcmp(argv[i], "-i")) indep = 1;
+        else if (!strcmp(argv[i], "-q")) quiet = 1;
+        else if (!strcmp(argv[i], "-V")) vard = 1;
+    }
+    run_case(argv[1], info, maxdata, indep, quiet, vard, NULL);
     if (info != MPI_INFO_NULL) MPI_Info_free(&info);
     free(g_buf);
     MPI_Finalize();
